@@ -15,7 +15,16 @@ Streams
   resave   the image is saved, LOADED in a child process working in the file's directory (mmap True/False/'c'/'r';
            nib.load / from_filename / open file objects; path spelled absolute, relative, ./x, sub/../x, pathlib,
            through a symlink, with a double slash) and saved over its own file (same or another spelling, own file_map,
-           get_filename(), nib.save; same object, re-wrapped dataobj, re-wrapped memmap array); the final file is tested.
+           get_filename(), nib.save; same object, re-wrapped dataobj, re-wrapped memmap array, re-wrapped base-class
+           VIEWS of the memmap: np.asarray, asfortranarray, .view(np.ndarray), [...], .T.T); the final file is tested.
+  donor    the image is built with the HEADER OF ANOTHER IMAGE (`klass(data, donor.affine, donor.header)`): class x
+           relation of the donor's shape to the data's (trailing / leading length-1 axes added or removed, other rank,
+           other lengths, same number of elements, equal, long vectors) x donor class (same / every other, MGH included)
+           x donor dtype / byte order / zooms x donor fresh | loaded | already saved; also a random quarter of `rt`.
+           The model runs from_header, update_header, set_data_dtype; the written `dim` / `glmin` are observables too.
+  mf       volumeutils.maps_file on arrays made by chains of view / copy steps from memory maps (np.memmap r / c / r+,
+           np.frombuffer(mmap), loaded proxies) and from plain buffers, against the model on the `.base` chain; the
+           oracle demands True whenever np.shares_memory(array, map).
   long     LONG axes (> 2**16; (N,1,1), (1,N,1), (N,), (1,1,1,N), (N,2), (2,N); N incl. 131072, 163842, 196608,
            200000 and random ones) for some classes / dtypes / routes; values from a compact LCG spec.
   hshape   set_data_shape / get_data_shape of the Analyze-family headers against the model (limits of `dim`, the two
@@ -59,20 +68,37 @@ THEOREMS = [
     'Nb.C01.mgh_single_frame_4d_counterexample',
     'Nb.C01.zero_size_orig_counterexample',
     'Nb.C01.codec_by_suffix',
-    'Nb.C01.codec_same_for_read_and_write',
+    'Nb.C01.codec_same_for_read_and_write',  # GLUE (codec_by_suffix twice; Opener.__init__ kwargs not modelled)
     'Nb.C01.table_codecs_canonical',
-    'Nb.C01.dtype_override_plan',
-    'Nb.C01.dtype_override_roundtrip',
+    'Nb.C01.dtype_override_plan',            # GLUE (by construction); real statement: dtype_override_roundtrip_iff
+    'Nb.C01.dtype_override_roundtrip',       # GLUE (same); real statement: dtype_override_uses_header_order
     'Nb.C01.dtype_override_native_order_counterexample',
-    'Nb.C01.resave_in_place',
+    'Nb.C01.resave_in_place',                # corollary of roundtrip_bytes; the decision is in resave_view_in_place
     'Nb.C01.resave_lazy_counterexample',
-    'Nb.C01.mgh_resave_in_place',
+    'Nb.C01.mgh_resave_in_place',            # corollary; decision: mgh_resave_view_in_place
     'Nb.C01.float_out_never_scaled',
     'Nb.C01.same_dtype_exact',
     'Nb.C01.shape_roundtrip',
     'Nb.C01.nifti1_ico7_alias_counterexample',
     'Nb.C01.shape_rules_generated',
     'Nb.C01.mgh_constants_generated',
+    'Nb.C01.header_shape_follows_data',
+    'Nb.C01.reused_header_roundtrip',
+    'Nb.C01.update_header_tolerant_counterexample',
+    'Nb.C01.from_header_state',
+    'Nb.C01.mgh_donor_irrelevant',
+    'Nb.C01.donor_tables_generated',
+    'Nb.C01.maps_file_iff',
+    'Nb.C01.resave_view_in_place',
+    'Nb.C01.maps_file_orig_counterexample',
+    'Nb.C01.maps_file_arrays_only_counterexample',
+    'Nb.C01.mgh_resave_view_in_place',
+    'Nb.C01.resave_arrays_only_counterexample',
+    'Nb.C01.dtype_override_uses_header_order',
+    'Nb.C01.dtype_override_other_order_fails',
+    'Nb.C01.code_tables_generated',
+    'Nb.C01.dtype_override_roundtrip_iff',
+    'Nb.C01.mgh_footer_offset_generated',
 ]
 ASSUMPTIONS = [
     'hand-written Lean model (Model/C01.lean) of the scaling-free path: ArrayWriter/SlopeArrayWriter.scaling_needed, '
@@ -87,6 +113,13 @@ ASSUMPTIONS = [
     'header bytes are opaque to the model (dummy bytes of the generated length); header field round-trip is C10 - except '
     'the shape fields (dim, glmin) and the (byte order, data-type code) pair, which Model/C01 now models '
     '(setShape/getShape, Hdr/saveDType) and the hshape / dtypearg streams tie to the code',
+    'reused headers: Model/C01 now models from_header (copy for the same header class, native-order conversion with '
+    'glmin hand-over otherwise), set_data_shape on a header in any prior state and the shape part of update_header; '
+    'check_fix, zooms, affine fields and every other header field of a donor are not modelled (C10); the supported-dtype '
+    'list of a class is the generator\'s (donor dtypes are drawn from the dtypes both classes accept)',
+    'maps_file: NumPy\'s `.base` bookkeeping is trusted (the harness reads the chain off the real array); contract: an '
+    'array reads from a mapped file iff its chain reaches np.memmap / mmap.mmap through ndarrays (np.frombuffer(mmap) '
+    'breaks it with a memoryview link: open finding maps_file:frombuffer-mmap-memoryview)',
     'resave: the operating system contract "open(name, \'wb\') truncates the file a memory map refers to" is modelled as '
     'the empty file; path resolution (relative names, symlinks) is the OS\'s, exercised by the resave stream only',
 ]
@@ -99,6 +132,8 @@ RULE = ('rt: every valid (class x route x compression) cell x random (endianness
         'dtypearg: class x {<,>} x header source x dtype= spelling x route. resave: class x path spelling x mmap mode x '
         'random (loader, save spelling, re-wrapping, compression, > 1 page of data). long: fixed list of long shapes + '
         'random lengths in (2**16, 1.4e5) per seed. hshape: limits of dim/glmin, both FreeSurfer conventions, ranks 1-8. '
+        'donor: class x 10 shape relations x {same class, two other classes} x cycled (state, route, dtype), random donor '
+        'dtype / byte order / zooms. mf: 9 roots x (every step, asarray + every step, random chains of 2-5 steps). '
         'Concurrent access through a shared handle is C14. sn: all dtype pairs x value classes x {base, slope}. '
         'codec: every generated table name x roots + random names. mghshape: all shapes of rank 0-5 over {1,2,3}.')
 
@@ -116,6 +151,12 @@ PENDING_FINDINGS = [{
     'input': {'op': 'rt', 'cls': 'Nifti1Image', 'endian': '<', 'out': 'u1', 'offset': None, 'shape': [27307, 1, 6],
               'in': 'u1', 'layout': 'C', 'vals': {'lcg': [77, 5, 256, 0]}, 'route': 'bytes', 'comp': '',
               'stream': 'long'},
+}, {
+    'property': 'C01', 'signature': 'maps_file:dlpack-capsule-owner', 'status': 'open',
+    'what': 'volumeutils.maps_file() answers False for np.from_dlpack(memmap): the owner of the array is an opaque '
+            'PyCapsule, so the walk over owners ends before the memory map; an image wrapping such an array saved over '
+            'the mapped file truncates the file under the data (SIGBUS, 352-byte file)',
+    'input': {'op': 'mf', 'recipe': ['proxy_c', 'dlpack']},
 }]
 
 logging.getLogger('nibabel').setLevel(logging.CRITICAL)
@@ -233,6 +274,24 @@ def shape_rules():
     return out
 
 
+def dtype_code(cn, dn):
+    """the code `header_class._data_type_codes` gives the dtype (as set_data_dtype looks it up)"""
+    return int(klass(cn).header_class._data_type_codes[np_dtype(dn)])
+
+
+def mgh_footer_samples():
+    hc = klass('MGHImage').header_class
+    out = []
+    for dn in class_info()['MGHImage']['dtypes']:
+        for sh in ((1, 1, 1), (2, 3, 4), (5, 1, 7, 3), (163842, 1, 1), (3, 1, 1, 2), (7,), (2, 9)):
+            h = hc()
+            h.set_data_dtype(np_dtype(dn))
+            h.set_data_shape(sh)
+            kind, cw, k = comp_layout(dn)
+            out.append((cw, k, sh, int(h.get_data_offset()), int(h.get_footer_offset())))
+    return out
+
+
 def _lean_str(s):
     return '"' + s.replace('\\', '\\\\').replace('"', '\\"') + '"'
 
@@ -274,11 +333,28 @@ def regen():
            '    has, np.iinfo(hdr["dim"].dtype).max, np.iinfo(hdr["glmin"].dtype).max or 0 when there is no glmin) -/',
            'def shapeRules : List (String × String × Nat × Nat) :=',
            '  [' + ',\n   '.join(f'({_lean_str(cn)}, {_lean_str(r)}, {dm}, {gm})' for cn, r, dm, gm in shape_rules()) + ']', '',
+           '/-- header class of every writable volume image class: (image class, `klass.header_class.__name__`) -/',
+           'def headerClasses : List (String × String) :=',
+           '  [' + ', '.join(f'({_lean_str(cn)}, {_lean_str(klass(cn).header_class.__name__)})' for cn in CLASS_NAMES) + ']', '',
+           '/-- `MGHHeader()["dims"]` of a fresh MGH header -/',
+           'def mghFreshDims : List Nat := [' + ', '.join(str(int(x)) for x in klass('MGHImage').header_class()['dims']) + ']', '',
+           '/-- `header_class._data_type_codes`: per image class the dtypes `set_data_dtype` accepts with their',
+           '    `datatype` / `type` code: (class, [(dtype name, code)]) -/',
+           'def dtypeCodes : List (String × List (String × Nat)) :=',
+           '  [' + ',\n   '.join(
+               f'({_lean_str(cn)}, [' + ', '.join(f'({_lean_str(dn)}, {dtype_code(cn, dn)})' for dn in info[cn]['dtypes']) + '])'
+               for cn in CLASS_NAMES) + ']', '',
+           '/-- samples of `MGHHeader.get_footer_offset()` / `get_data_offset()`: (component width, components,',
+           '    `dims` handed to set_data_shape, get_data_offset(), get_footer_offset()) -/',
+           'def mghFooterSamples : List (Nat × Nat × List Nat × Nat × Nat) :=',
+           '  [' + ', '.join(f'({cw}, {k}, [{", ".join(map(str, sh))}], {do}, {fo})' for cw, k, sh, do, fo in mgh_footer_samples()) + ']', '',
            'end Nb.C01.Gen', '']
     common.write_if_changed(os.path.join(common.LEAN, 'NibabelModel', 'Generated', 'C01FileTypes.lean'),
                             '\n'.join(src))
     return ['Generated.C01FileTypes.compressExtMap', 'Generated.C01FileTypes.classes',
-            'Generated.C01FileTypes.dataFileNames', 'Generated.C01FileTypes.shapeRules']
+            'Generated.C01FileTypes.dataFileNames', 'Generated.C01FileTypes.shapeRules',
+            'Generated.C01FileTypes.headerClasses', 'Generated.C01FileTypes.mghFreshDims',
+            'Generated.C01FileTypes.dtypeCodes', 'Generated.C01FileTypes.mghFooterSamples']
 
 
 # ------------------------------------------------------------------ arrays
@@ -472,7 +548,13 @@ def mk_rt(cls, endian, out, offset, shape, in_name, layout, vals, route, comp, s
               an image loaded from a file of that byte order)
       saver   'method' (img.to_filename / to_file_map / to_bytes / to_stream) | 'nibsave' (nib.save, filename route)
       resave  {'mmap', 'load', 'lpath', 'spath', 'via', 'touch'}: the image is saved, LOADED (in a child process,
-              cwd = the file's directory) and saved over its own file; the final file is the one under test"""
+              cwd = the file's directory) and saved over its own file; the final file is the one under test
+      donor   {'cls', 'shape', 'endian', 'dtype', 'state', 'setdt', 'zooms'}: the image is built with the HEADER OF ANOTHER
+              IMAGE, `klass(data, donor.affine, donor.header)`; the donor is an image of class `cls` and shape `shape`
+              whose header has byte order `endian` and dtype `dtype`, and is 'fresh' (in memory), 'loaded' (saved and
+              loaded back) or 'saved' (in memory, already used in a save); setdt: `img.set_data_dtype(out)` follows the
+              construction (else the donor's dtype IS the on-disk dtype); `endian` of the case is then the byte order
+              the generator expects the file to have (the donor's for the same class, native otherwise)"""
     shape = tuple(int(s) for s in shape)
     data = {'op': 'rt', 'cls': cls, 'endian': endian, 'out': out, 'offset': offset, 'shape': list(shape),
             'in': in_name, 'layout': layout, 'vals': vals, 'route': route, 'comp': comp, 'stream': stream}
@@ -487,10 +569,16 @@ def mk_rt(cls, endian, out, offset, shape, in_name, layout, vals, route, comp, s
     off = '_' if offset is None else str(offset)
     n = int(np.prod(shape, dtype=object)) if len(shape) else 1
     xv = expand_vals(vals, {'f16': 'f8', 'c32': 'c16'}.get(in_name, in_name), n)
-    if opts.get('ovr'):
-        head = f'C01 rtd {cls} {endian} {opts["ovr"]["hdr0"]} {out} {spell_dtype(out, opts["ovr"]["spell"])[1]}'
+    if opts.get('donor'):
+        dn = opts['donor']
+        head = (f'C01 rth {cls} {NATIVE} {dn["cls"]} {dn["endian"]} {dn["dtype"]} {fmt_shape(dn["shape"])} '
+                f'{out if dn.get("setdt") else "_"}')
+    elif opts.get('ovr'):
+        obj_order = spell_dtype(out, opts['ovr']['spell'])[1]          # byte order of the dtype OBJECT ('=' = the machine's)
+        head = f'C01 rtd {cls} {endian} {opts["ovr"]["hdr0"]} {out} {NATIVE if obj_order == "=" else obj_order}'
     elif opts.get('resave'):
-        head = f'C01 rs {cls} {endian} {out}'
+        mapped, chain = rs_probe(cls, comp, opts['resave'])
+        head = f'C01 rs {cls} {endian} {out} {mapped} {chain}'
     else:
         head = f'C01 rt {cls} {endian} {out}'
     if ik in 'iu' and okd in 'iu':
@@ -504,7 +592,7 @@ def mk_rt(cls, endian, out, offset, shape, in_name, layout, vals, route, comp, s
     return Case(line, data, key, stream)
 
 
-OPT_KEYS = ('ovr', 'hdr_src', 'saver', 'resave')
+OPT_KEYS = ('ovr', 'hdr_src', 'saver', 'resave', 'donor')
 
 
 def mk_sn(writer, in_name, out, vals):
@@ -547,6 +635,160 @@ def mk_hshape(cls, shape):
                 ('hshape', cls, tuple(shape)), 'hshape')
 
 
+MF_ROOTS = ['memmap_r', 'memmap_c', 'memmap_rp', 'mmapbuf', 'proxy', 'proxy_c', 'ndarray', 'bytes', 'bytearray']
+MF_STEPS = ['asarray', 'asanyarray', 'view_nd', 'slice', 'T', 'reshape', 'newaxis', 'ascontig', 'view_u1', 'step2', 'copy',
+            'array_nocopy', 'memmap_view', 'as_strided', 'window', 'memoryview', 'frombuffer', 'dlpack']
+
+
+def mapped_file_of(a):
+    """OS-level ground truth: path of the file-backed mapping the first byte of `a` lies in (None: anonymous memory)"""
+    if not isinstance(a, np.ndarray) or a.size == 0:
+        return None
+    addr = a.__array_interface__['data'][0]
+    try:
+        with open('/proc/self/maps') as f:
+            for line in f:
+                parts = line.split(None, 5)
+                lo, hi = (int(x, 16) for x in parts[0].split('-'))
+                if lo <= addr < hi:
+                    path = parts[5].strip() if len(parts) > 5 else ''
+                    return path if path.startswith('/') and not path.startswith('/dev/zero') else None
+    except OSError:                                   # pragma: no cover
+        pass
+    return None
+
+
+def _mf_build(recipe, tmp):
+    """(array, root array or None when nothing is mapped): the array made by `recipe` = [root, step, step, ...]"""
+    import mmap as _mmap
+    import nibabel as nib
+    root = recipe[0]
+    path = os.path.join(tmp, 'm.dat')
+    with open(path, 'wb') as f:
+        f.write(bytes(range(256)) * 64)
+    keep = []
+    if root.startswith('memmap'):
+        a = np.memmap(path, dtype='<i2', mode={'memmap_r': 'r', 'memmap_c': 'c', 'memmap_rp': 'r+'}[root], shape=(8, 16, 4),
+                      offset=32, order='F')
+        mapped = a
+    elif root == 'mmapbuf':
+        fobj = open(path, 'rb')
+        keep.append(fobj)
+        mm = _mmap.mmap(fobj.fileno(), 0, access=_mmap.ACCESS_READ)
+        a = np.frombuffer(mm, dtype='<i2', count=512, offset=32).reshape(8, 16, 4)
+        mapped = a
+    elif root.startswith('proxy'):
+        ipath = os.path.join(tmp, 'v.nii')
+        nib.Nifti1Image(np.arange(512, dtype='<i2').reshape(8, 16, 4), np.eye(4)).to_filename(ipath)
+        a = np.asanyarray(nib.load(ipath, mmap='c' if root == 'proxy_c' else True).dataobj)
+        mapped = a
+    elif root == 'ndarray':
+        a = np.arange(512, dtype='<i2').reshape(8, 16, 4)
+        mapped = None
+    elif root == 'bytes':
+        a = np.frombuffer(bytes(1024), dtype='<i2').reshape(8, 16, 4)
+        mapped = None
+    else:
+        a = np.frombuffer(bytearray(1024), dtype='<i2').reshape(8, 16, 4)
+        mapped = None
+    for st in recipe[1:]:
+        if st == 'asarray':
+            a = np.asarray(a)
+        elif st == 'asanyarray':
+            a = np.asanyarray(a)
+        elif st == 'view_nd':
+            a = a.view(np.ndarray)
+        elif st == 'slice':
+            a = a[1:]
+        elif st == 'T':
+            a = a.T
+        elif st == 'reshape':
+            a = a.reshape(a.shape[::-1], order='A') if (a.flags.c_contiguous or a.flags.f_contiguous) else a[...]
+        elif st == 'newaxis':
+            a = a[..., None]
+        elif st == 'ascontig':
+            a = np.ascontiguousarray(a) if a.flags.c_contiguous else np.asfortranarray(a) if a.flags.f_contiguous else a[...]
+        elif st == 'view_u1':
+            a = a.view('u1') if (a.flags.c_contiguous and a.ndim) else a[...]
+        elif st == 'step2':
+            a = a[::2]
+        elif st == 'copy':
+            a = np.array(a)
+            mapped = None
+        elif st == 'array_nocopy':
+            a = np.array(a, copy=False) if a.size else a
+        elif st == 'memmap_view':
+            a = a.view(np.memmap) if isinstance(a, np.memmap) else a.view(np.ndarray)
+        elif st == 'as_strided':
+            from numpy.lib.stride_tricks import as_strided
+            a = as_strided(a, shape=a.shape, strides=a.strides)
+        elif st == 'window':
+            from numpy.lib.stride_tricks import sliding_window_view
+            a = sliding_window_view(a, (1,) * a.ndim)[(Ellipsis,) + (0,) * a.ndim] if a.ndim else a
+        elif st == 'memoryview':
+            a = np.asarray(memoryview(a)) if (a.flags.c_contiguous or a.flags.f_contiguous) and a.dtype.kind != 'V' else a[...]
+        elif st == 'frombuffer':
+            a = np.frombuffer(a, dtype=a.dtype).reshape(a.shape) if a.flags.c_contiguous else a[...]
+        elif st == 'dlpack':
+            try:
+                a = np.from_dlpack(a) if a.flags.writeable else a[...]
+            except Exception:
+                a = a[...]
+        else:
+            raise ValueError(st)
+    return a, mapped, keep
+
+
+def _mf_chain(a):
+    """the `.base` chain of `a` as the model sees it"""
+    import mmap as _mmap
+    out = []
+    x = a
+    while x is not None and len(out) < 64:
+        if isinstance(x, np.memmap):
+            out.append('M')
+        elif isinstance(x, np.ndarray):
+            out.append('N')
+        elif isinstance(x, _mmap.mmap):
+            out.append('B')
+        elif isinstance(x, memoryview):
+            out.append('V')
+        else:
+            out.append('O')
+        # the owner link: `.obj` of a memoryview, the `.base` attribute of anything else (absent = end)
+        x = x.obj if isinstance(x, memoryview) else getattr(x, 'base', None)
+    return ''.join(out) or '-'
+
+
+_MF_CACHE = {}
+
+
+def mf_probe(recipe):
+    """(chain, mapped, maps_file answer) of the array a recipe makes"""
+    key = tuple(recipe)
+    if key not in _MF_CACHE:
+        from nibabel.volumeutils import maps_file
+        with tempfile.TemporaryDirectory(prefix='c01_') as tmp:
+            a, mapped, keep = _mf_build(recipe, tmp)
+            chain = _mf_chain(a)
+            is_mapped = (mapped is not None and a.size > 0 and bool(np.shares_memory(a, mapped))) or \
+                mapped_file_of(a) is not None
+            try:
+                ans = 'true' if maps_file(a) else 'false'
+            except Exception as e:
+                ans = errname(e)
+            del a, mapped
+            for f in keep:
+                f.close()
+        _MF_CACHE[key] = (chain, is_mapped, ans)
+    return _MF_CACHE[key]
+
+
+def mk_mf(recipe):
+    chain, is_mapped, _ = mf_probe(recipe)
+    return Case(f'C01 mf {chain}', {'op': 'mf', 'recipe': list(recipe)}, ('mf', chain, is_mapped, recipe[0]), 'mf')
+
+
 def mk_mghshape(shape):
     return Case(f'C01 mghshape {fmt_shape(shape)}', {'op': 'mghshape', 'shape': list(shape)},
                 ('mghshape', tuple(shape)), 'mghshape')
@@ -564,6 +806,8 @@ def case_from_data(d):
         return mk_codec(d['name'])
     if op == 'mghshape':
         return mk_mghshape(d['shape'])
+    if op == 'mf':
+        return mk_mf(d['recipe'])
     if op == 'hshape':
         return mk_hshape(d['cls'], d['shape'])
     if op == 'opener':
@@ -650,6 +894,32 @@ def make_header(c, d):
     return hdr
 
 
+def image_with_donor_header(c, d, arr, out_dt):
+    """`klass(data, donor.affine, donor.header)`: the header comes from ANOTHER image (other shape / class / dtype /
+    byte order; fresh, loaded from a file, or already used in a save)"""
+    dn = d['donor']
+    D = klass(dn['cls'])
+    ddt = np_dtype(dn['dtype'])
+    dh = D.header_class() if dn['cls'] == 'MGHImage' else D.header_class(endianness=dn['endian'])
+    dh.set_data_dtype(ddt)
+    aff = np.diag([2.0, 3.0, 4.0, 1.0]) if dn.get('zooms') else np.eye(4)
+    dimg = D(np.zeros(tuple(dn['shape']), ddt), aff, dh)
+    nz = len(dimg.header.get_zooms())
+    if dn.get('zooms') and nz >= 4:
+        dimg.header.set_zooms(tuple(dimg.header.get_zooms()[:3]) + (2.5,) + (1.0,) * (nz - 4))
+    if dn.get('state', 'fresh') != 'fresh':
+        fm = D.make_file_map()
+        for k in fm:
+            fm[k].fileobj = io.BytesIO()
+        dimg.to_file_map(fm)
+        if dn['state'] == 'loaded':
+            dimg = D.from_file_map(fm)
+    img = c(arr, dimg.affine, dimg.header)
+    if dn.get('setdt'):
+        img.set_data_dtype(out_dt)
+    return img
+
+
 def _in_child(fn):
     """run fn() in a forked child (a SIGBUS on a truncated memory map must not take the harness down);
     None when the child finished normally, else an ERR line"""
@@ -688,6 +958,14 @@ class ChildFailed(Exception):
     pass
 
 
+VIA_VIEWS = {
+    'asarray': lambda dobj: np.asarray(dobj),
+    'contig': lambda dobj: np.asfortranarray(np.asarray(dobj)),
+    'ndview': lambda dobj: np.asanyarray(dobj).view(np.ndarray),
+    'slice': lambda dobj: np.asanyarray(dobj)[...],
+    'TT': lambda dobj: np.asarray(dobj).T.T,
+    'asarray2': lambda dobj: np.asarray(np.asarray(dobj)[...]),
+}
 RS_PATHS = ['abs', 'rel', 'dot', 'dotdot', 'pathlib', 'symlink', 'dslash']
 
 
@@ -709,6 +987,65 @@ def _spell_path(work, base, how):
     if how == 'dslash':
         return work + '//' + base
     raise ValueError(how)
+
+
+def _rs_load(c, lp, rs, keep):
+    """the loaded (and possibly re-wrapped) image of a resave case"""
+    import nibabel as nib
+    mm = rs['mmap']
+    how = rs['load']
+    if how == 'nib.load':
+        li = nib.load(lp, mmap=mm)
+    elif how == 'fileobj':
+        fm = c.filespec_to_file_map(lp)
+        for k in fm:
+            f = open(fm[k].filename, 'rb')
+            keep.append(f)
+            fm[k] = nib.fileholders.FileHolder(fileobj=f)
+        li = c.from_file_map(fm, mmap=mm)
+    else:
+        li = c.from_filename(lp, mmap=mm)
+    if rs.get('touch') == 'asarray':
+        np.asanyarray(li.dataobj)
+    elif rs.get('touch') == 'fdata':
+        li.get_fdata()
+    via = rs.get('via', 'same')
+    if via == 'new':
+        li = c(li.dataobj, li.affine, li.header)
+    elif via == 'arr':
+        li = c(np.asanyarray(li.dataobj), li.affine, li.header)
+    elif via in VIA_VIEWS:
+        # a VIEW of the loaded data (a plain ndarray that still reads from the file when the data are mapped)
+        li = c(VIA_VIEWS[via](li.dataobj), li.affine, li.header)
+    return li
+
+
+_RS_PROBE = {}
+
+
+def rs_probe(cls, comp, rs):
+    """(mapped, owner chain) of the array `to_file_map` gets from `np.asanyarray(img.dataobj)` in a resave case with
+    this class / compression / mmap mode / loader / re-wrapping: found by doing the load on a small file of the
+    same kind (nothing is saved over it); `mapped` is the OS's answer (/proc/self/maps)"""
+    key = (cls, comp, str(rs['mmap']), rs['load'], rs.get('via', 'same'))
+    if key not in _RS_PROBE:
+        c = klass(cls)
+        with tempfile.TemporaryDirectory(prefix='c01_') as tmp:
+            if cls == 'MGHImage':
+                base = 'p' + ('.mgz' if comp == '.mgz' else '.mgh')
+            else:
+                base = 'p' + c.files_types[0][1] + comp
+            path = os.path.join(tmp, base)
+            c(np.arange(24, dtype=np.uint8).reshape(2, 3, 4), np.eye(4)).to_filename(path)
+            keep = []
+            li = _rs_load(c, path, dict(rs, touch=None), keep)
+            a = np.asanyarray(li.dataobj)
+            res = (1 if mapped_file_of(a) is not None else 0, _mf_chain(a))
+            del a, li
+            for f in keep:
+                f.close()
+        _RS_PROBE[key] = res
+    return _RS_PROBE[key]
 
 
 def _resave(c, d, img, tmp):
@@ -735,29 +1072,10 @@ def _resave(c, d, img, tmp):
     def work_fn():
         os.chdir(work)
         lp = _spell_path(work, base, rs['lpath'])
-        mm = rs['mmap']
         how = rs['load']
         keep = []
-        if how == 'nib.load':
-            li = nib.load(lp, mmap=mm)
-        elif how == 'fileobj':
-            fm = c.filespec_to_file_map(lp)
-            for k in fm:
-                f = open(fm[k].filename, 'rb')
-                keep.append(f)
-                fm[k] = nib.fileholders.FileHolder(fileobj=f)
-            li = c.from_file_map(fm, mmap=mm)
-        else:
-            li = c.from_filename(lp, mmap=mm)
-        if rs.get('touch') == 'asarray':
-            np.asanyarray(li.dataobj)
-        elif rs.get('touch') == 'fdata':
-            li.get_fdata()
+        li = _rs_load(c, lp, rs, keep)
         via = rs.get('via', 'same')
-        if via == 'new':
-            li = c(li.dataobj, li.affine, li.header)
-        elif via == 'arr':
-            li = c(np.asanyarray(li.dataobj), li.affine, li.header)
         sp = rs['spath']
         if sp == 'own' and via == 'same' and how != 'fileobj':
             li.to_file_map()
@@ -782,15 +1100,18 @@ def save_load(d, arr):
     import nibabel as nib
     c = klass(d['cls'])
     out_dt = np_dtype(d['out'])
-    hdr = make_header(c, d)
     ovr = d.get('ovr')
     kw = {}
-    if ovr:
-        hdr.set_data_dtype(np_dtype(ovr['hdr0']))
-        kw['dtype'] = spell_dtype(d['out'], ovr['spell'])[0]
+    if d.get('donor'):
+        img = image_with_donor_header(c, d, arr, out_dt)
     else:
-        hdr.set_data_dtype(out_dt)
-    img = c(arr, np.eye(4), hdr)
+        hdr = make_header(c, d)
+        if ovr:
+            hdr.set_data_dtype(np_dtype(ovr['hdr0']))
+            kw['dtype'] = spell_dtype(d['out'], ovr['spell'])[0]
+        else:
+            hdr.set_data_dtype(out_dt)
+        img = c(arr, np.eye(4), hdr)
     if d.get('offset') is not None:
         img.header.set_data_offset(d['offset'])
     # history: the same image object was saved before, with another on-disk dtype (possibly one that needs
@@ -952,6 +1273,11 @@ def impl(case):
         except Exception as e:
             gs = errname(e)
         return f'dims={dims} glmin={glmin} shape={gs}'.replace(', ', ',')
+    if op == 'mf':
+        _MF_CACHE.pop(tuple(d['recipe']), None)
+        chain, is_mapped, ans = mf_probe(d['recipe'])
+        case.extra = {'mapped': is_mapped, 'chain': chain}
+        return ans
     if op == 'mghshape':
         from nibabel import MGHImage
         try:
@@ -997,6 +1323,14 @@ def impl(case):
     else:
         vals = fmt_elems(patterns(got, d['out']))
     after = f' after={loaded._c01_after}' if d.get('ovr') else ''
+    if d.get('donor'):
+        lh = loaded.header
+        if d['cls'] == 'MGHImage':
+            after += f' hdr={[int(x) for x in lh["dims"]]} glmin=0'.replace(', ', ',')
+        else:
+            nd = int(lh['dim'][0])
+            after += (f' hdr={[int(x) for x in lh["dim"][1:nd + 1]]} '
+                      f'glmin={int(lh["glmin"]) if "glmin" in lh.keys() else 0}').replace(', ', ',')
     return (f'ok flen={len(raw)} pad0={1 if not any(pad) else 0} data={raw[off:off + n].hex()} '
             f'tail={max(0, len(raw) - off - n)} shape={[int(s) for s in got.shape]} vals={vals}').replace(', ', ',') + after
 
@@ -1034,6 +1368,12 @@ def oracle(case, out):
         return None
     if op == 'mghshape':
         return None
+    if op == 'mf':
+        ex = case.extra or {}
+        if ex.get('mapped') and out != 'true':
+            return (f'maps_file() answers {out} for an array whose memory is a mapped file (recipe {d["recipe"]}, '
+                    f'base chain {ex.get("chain")}): saving it over that file truncates the file under the data')
+        return None
     if op == 'hshape':
         if out.startswith('ERR'):
             return None
@@ -1062,6 +1402,13 @@ def oracle(case, out):
     if d.get('expect') == 'refuse':
         if out != 'ERR:HeaderDataError':
             return f'data offset {d["offset"]} below the header of {d["cls"]} was not refused: {out[:80]}'
+        return None
+    if d.get('expect') == 'refuse-donor':
+        # a header whose dtype the target class has no code for: the constructor must refuse it loudly, never
+        # build an image that would be written with another dtype
+        if out != 'ERR:HeaderDataError':
+            return (f'{d["cls"]} accepted the header of a {d["donor"]["cls"]} whose dtype {d["donor"]["dtype"]} it '
+                    f'does not support: {out[:80]}')
         return None
     arr = ex.get('arr')
     if arr is None:
@@ -1147,6 +1494,9 @@ def _ico7_alias(d):
 
 def signature(case, what):
     d = case.data
+    if d['op'] == 'mf' and 'dlpack' in d['recipe'] and 'answers false' in what and 'chain N' in what and \
+            what.split('base chain ')[1].split(')')[0].endswith('O'):
+        return 'maps_file:dlpack-capsule-owner'
     if d['op'] != 'rt':
         return 'c01:' + d['op']
     if _ico7_alias(d) and 'shape changed' in what and \
@@ -1375,7 +1725,174 @@ def gen_rt(rng, cls, route, comp, stream='rt', zero=False):
             opts['hdr_src'] = rng.choice(HDR_SRCS)
     if route == 'filename' and rng.random() < 0.25:
         opts['saver'] = 'nibsave'
+    if not zero and 'ovr' not in opts and rng.random() < 0.25 and not (cls == 'MGHImage' and len(shape) == 4 and shape[3] == 1):
+        # the header of ANOTHER image (other shape / class / dtype / byte order / state) is handed to the constructor
+        dn = gen_donor(rng, cls, shape, out)
+        if dn is not None:
+            opts.pop('hdr_src', None)
+            opts['donor'] = dn
+            endian = donor_endian(cls, dn)
     return mk_rt(cls, endian, out, offset, shape, in_name, layout, vals, route, comp, stream, history=history, opts=opts)
+
+
+DONOR_RELS = ['trail+1', 'trail+2', 'trail-1', 'lead+1', 'lead-1', 'rank', 'lens', 'sameN', 'same', 'long']
+DONOR_STATES = ['fresh', 'loaded', 'saved']
+
+
+def shape_fits(cls, shape):
+    """the generator's own statement of which shapes a header class can hold (format limits: int16 `dim` of
+    Analyze / NIfTI-1 with its long-vector convention, 4 numbers in MGH, 7 axes otherwise)"""
+    shape = tuple(shape)
+    if not shape or min(shape) < 1:
+        return False
+    if cls == 'MGHImage':
+        return len(shape) <= 4 and max(shape) < 2 ** 31
+    if len(shape) > 7:
+        return False
+    if cls.startswith('Nifti2') or max(shape) <= 32767:
+        return True
+    return (cls.startswith('Nifti1') and len(shape) >= 3 and shape[1:3] == (1, 1) and max(shape[3:] + (0,)) <= 32767
+            and shape[0] < 2 ** 31)
+
+
+def donor_shape(rng, shape, rel):
+    """a donor shape standing in relation `rel` to the data shape"""
+    s = list(shape)
+    n = int(np.prod(s))
+    if rel == 'trail+1':
+        return s + [1]
+    if rel == 'trail+2':
+        return s + [1, 1]
+    if rel == 'trail-1':
+        return s[:-1] if (s[-1] == 1 and len(s) > 1) else s + [1]
+    if rel == 'lead+1':
+        return [1] + s
+    if rel == 'lead-1':
+        return s[1:] if (s[0] == 1 and len(s) > 1) else [1] + s
+    if rel == 'rank':
+        while True:
+            r = list(gen_shape(rng, 7))
+            if len(r) != len(s):
+                return r
+    if rel == 'lens':
+        r = [x + rng.choice([1, 2]) if rng.random() < 0.6 else max(1, x - 1) for x in s]
+        return r if r != s else [x + 1 for x in s]
+    if rel == 'sameN':
+        cands = [list(reversed(s)), [n], [n, 1, 1], [1, n], [x for x in s if x != 1] or [1], s[1:] + s[:1]]
+        cands = [c for c in cands if c != s]
+        return rng.choice(cands) if cands else s + [1]
+    if rel == 'long':
+        return list(rng.choice([(70000, 1, 1), (163842, 1, 1), (1, 70000, 1), (70000, 1, 1, 2), (40000, 2), (65536, 1, 1)]))
+    return s
+
+
+def gen_donor(rng, cls, shape, out, rel=None, dcls=None, state=None):
+    """opts['donor'] for an image of class `cls`, data shape `shape`, on-disk dtype `out` (None: no valid donor)"""
+    info = class_info()
+    ci = info[cls]
+    for _ in range(40):
+        dc = dcls or (cls if rng.random() < 0.5 else rng.choice(CLASS_NAMES))
+        di = info[dc]
+        r = rel or rng.choice(DONOR_RELS)
+        ds = donor_shape(rng, shape, r)
+        rep = ds + [1] * (3 - len(ds)) if dc == 'MGHImage' else ds          # MGHImage pads to 3-D
+        if dc == 'MGHImage' and len(rep) == 4 and rep[3] == 1:
+            rep3 = rep[:3]                                                 # ... and its header forgets a 4th 1
+        else:
+            rep3 = rep
+        if not (shape_fits(dc, ds) and shape_fits(dc, rep)):
+            if rel and r in ('trail+1', 'trail+2', 'lead+1') and len(ds) > di['max_rank']:
+                rel = 'trail-1' if r != 'lead+1' else 'lead-1'
+            elif rel == 'long':
+                rel = 'lens'
+            continue
+        if cls != 'MGHImage' and not (shape_fits(cls, rep) and shape_fits(cls, rep3)):
+            if rel == 'long':
+                rel = 'lens'
+            continue
+        st = state or rng.choice(DONOR_STATES)
+        if dc == 'MGHImage' and len(rep) == 4 and rep[3] == 1:
+            st = 'fresh'                                                   # (not saveable: the known MGH finding)
+        foreign_mgh = (cls == 'MGHImage' and dc != cls)
+        # donor dtype: the on-disk dtype itself (kept through from_header), or another one + set_data_dtype(out)
+        keep = (not foreign_mgh) and out in di['dtypes'] and rng.random() < 0.5
+        if keep:
+            ddt, setdt = out, False
+        else:
+            both = [t for t in di['dtypes'] if foreign_mgh or t in ci['dtypes']]
+            if not both:
+                continue
+            ddt, setdt = rng.choice(both), True
+        dend = '>' if di['big_only'] else rng.choice('<>')
+        dn = {'cls': dc, 'shape': [int(x) for x in ds], 'endian': dend, 'dtype': ddt, 'state': st, 'setdt': setdt}
+        if rng.random() < 0.4:
+            dn['zooms'] = True
+        return dn
+    return None
+
+
+def donor_endian(cls, dn):
+    """byte order the saved file is expected to have: the donor's when the header is copied (same class), the
+    machine's when it is converted"""
+    if cls == 'MGHImage':
+        return '>'
+    return dn['endian'] if dn['cls'] == cls else NATIVE
+
+
+def donor_stream(rng, tier):
+    """the image is built with the header of ANOTHER image: class x relation between the donor's shape and the data's
+    (trailing / leading length-1 axes added or removed, other rank, other lengths, same number of elements, same,
+    long vectors) x donor class {same, two others} x donor state / dtype / byte order / zooms"""
+    out = []
+    info = class_info()
+    j = 0
+    for cls in CLASS_NAMES:
+        ci = info[cls]
+        others = [c for c in CLASS_NAMES if c != cls]
+        for rel in DONOR_RELS:
+            for dsel in range({'quick': 3, 'thorough': 8, 'search': 3}[tier]):
+                j += 1
+                dcls = cls if dsel % 3 == 0 else others[(j + dsel) % len(others)]
+                odts = [t for t in ('i2', 'f4', 'u1', 'i4', 'f8', 'c8', 'rgb') if t in ci['dtypes']]
+                o = odts[j % len(odts)]
+                for _ in range(20):
+                    shape = gen_shape(rng, min(ci['max_rank'], 5))
+                    if not (cls == 'MGHImage' and len(shape) == 4 and shape[3] == 1):
+                        break
+                else:
+                    continue
+                dn = gen_donor(rng, cls, shape, o, rel=rel, dcls=dcls, state=DONOR_STATES[j % 3])
+                if dn is None:
+                    continue
+                vals = gen_vals(rng, o, o, int(np.prod(shape)))
+                routes = ['file_map', 'filename'] + (['bytes', 'stream'] if ci['serial'] else [])
+                route = routes[j % len(routes)]
+                comp = ''
+                if route == 'filename' and j % 2:
+                    comp = '.mgz' if cls == 'MGHImage' else '.gz'
+                hist = [gen_prior(rng, cls)] if j % 7 == 0 else None
+                out.append(mk_rt(cls, donor_endian(cls, dn), o, None, shape, o, gen_layout(rng, len(shape)), vals, route,
+                                 comp, 'donor', history=hist, opts={'donor': dn}))
+    # ---- donors whose dtype the target class has no code for: from_header must refuse (HeaderDataError)
+    for cls in CLASS_NAMES:
+        ci = info[cls]
+        if cls == 'MGHImage':
+            continue                                    # MGHHeader.from_header never converts a foreign header
+        for dcls in CLASS_NAMES:
+            if dcls == cls:
+                continue
+            bad = [t for t in info[dcls]['dtypes'] if t not in ci['dtypes']]
+            for ddt in (bad if tier != 'quick' else bad[:1] + ([rng.choice(bad)] if len(bad) > 1 else [])):
+                shape = gen_shape(rng, 4)
+                dn = {'cls': dcls, 'shape': list(donor_shape(rng, shape, rng.choice(['same', 'trail+1', 'lens']))),
+                      'endian': '>' if info[dcls]['big_only'] else rng.choice('<>'), 'dtype': ddt,
+                      'state': rng.choice(DONOR_STATES), 'setdt': True}
+                if not (shape_fits(dcls, dn['shape']) and shape_fits(cls, dn['shape'])):
+                    dn['shape'] = list(shape)
+                o = 'u1'
+                out.append(mk_rt(cls, donor_endian(cls, dn), o, None, shape, o, 'C', gen_vals(rng, o, o, int(np.prod(shape))),
+                                 'file_map', '', 'donor', expect='refuse-donor', opts={'donor': dn}))
+    return out
 
 
 def gen_prior(rng, cls):
@@ -1524,7 +2041,7 @@ def resave_stream(rng, tier):
                     spath = rng.choice(['same', 'same', 'own', 'getname'] + RS_PATHS)
                     o = rng.choice([t for t in ('i2', 'f4', 'u1', 'i4', 'f8', 'c8', 'rgb') if t in ci['dtypes']])
                     rs = {'mmap': mm, 'load': load, 'lpath': lpath, 'spath': spath,
-                          'via': rng.choice(['same', 'same', 'new', 'arr']),
+                          'via': rng.choice(['same', 'same', 'new', 'arr'] + sorted(VIA_VIEWS)),
                           'touch': rng.choice([None, None, 'asarray', 'fdata' if comp_layout(o)[0] in 'iuf' else None])}
                     if rng.random() < 0.25:
                         rs['saver'] = 'nibsave'
@@ -1593,6 +2110,8 @@ def long_stream(rng, tier):
                                 (n // 2, 2), (2, n // 2), (1, n // 2, 1, 2)])
         in_name = rng.choice(['i2', 'u1', 'i4', 'f4', 'f8', 'c8', 'i8', 'u2'])
         outs = out_choices(ci['dtypes'], in_name)
+        if not outs:                                   # (e.g. complex input, MGH)
+            continue
         o = in_name if (in_name in outs and rng.random() < 0.6) else rng.choice(
             [t for t in outs if comp_layout(t)[0] in 'iu' or comp_layout(in_name)[0] not in 'iu' or True])
         if comp_layout(in_name)[0] in 'fc' and comp_layout(o)[0] in 'iu':
@@ -1660,6 +2179,7 @@ def cases(rng, tier):
     out.extend(history_stream(rng, tier))
     out.extend(dtypearg_stream(rng, tier))
     out.extend(resave_stream(rng, tier))
+    out.extend(donor_stream(rng, tier))
     out.extend(long_stream(rng, tier))
     # ---- the MGH single-frame 4-D class (known finding) and its neighbours
     for shape in [(1, 1, 1, 1), (2, 3, 2, 1), (2, 1, 1, 1), (2, 3, 2, 2), (1, 1, 1, 2), (2, 3, 1), (1, 1, 1), (3,), (2, 2)]:
@@ -1774,6 +2294,16 @@ def cases(rng, tier):
             shapes.append((rng.choice(pool),) + (1, 1) + tuple(rng.choice(pool[:6]) for _ in range(rng.randint(0, 4))))
         for sh in shapes:
             out.append(mk_hshape(cls, sh))
+    # ---- maps_file: every root x chains of view / copy steps
+    seen_mf = set()
+    for root in MF_ROOTS:
+        recs = [[root]] + [[root, st] for st in MF_STEPS] + [[root, 'asarray', st] for st in MF_STEPS]
+        for _ in range({'quick': 6, 'thorough': 60, 'search': 6}[tier]):
+            recs.append([root] + [rng.choice(MF_STEPS) for _ in range(rng.randint(2, 5))])
+        for rec in recs:
+            if tuple(rec) not in seen_mf:
+                seen_mf.add(tuple(rec))
+                out.append(mk_mf(rec))
     # ---- MGH shape rules, exhaustive small
     for rank in range(0, 6):
         for shape in itertools.product([1, 2, 3], repeat=rank):
